@@ -190,6 +190,14 @@ def mem_job(job):
         out['pack_yes'] = _measure(lambda: cont.pack_all_loose(compress=CompressMode.YES))
         out['validate_z'] = _measure(cont.validate)
         out['read_packedz_chunked'] = _measure(lambda: chunked(key))
+        def seeking(k):
+            with cont.get_object_stream(k) as stream:
+                stream.seek(-4096, 2)
+                stream.read()
+                stream.seek(-10, 1)
+                stream.read(5)
+        out['seek_read_packedz'] = _measure(lambda: seeking(key))
+        cont.clean_storage()
         out['repack_no'] = _measure(lambda: cont.repack(compress_mode=CompressMode.NO))
         out['read_packed_chunked'] = _measure(lambda: chunked(key))
         out['repack_yes'] = _measure(lambda: cont.repack(compress_mode=CompressMode.YES))
